@@ -5,6 +5,7 @@
 set -u
 dir=$(cd "$1" && pwd); id=$2; tier=${3:-quick}
 export GOFLAGS=-mod=mod GOPROXY=off
+export VERIF_EVIDENCE_DIR=/tmp/seedrun-evidence
 name=$(basename "$dir")
 if ! git -C /repo diff --quiet; then echo "$name: /repo is not clean"; exit 2; fi
 wt=$(mktemp -d /tmp/seedconfirm.XXXX)
